@@ -81,8 +81,21 @@ def _fn(op):
 
 
 def _clear():
-    PolyPerms._CACHE.clear()
-    IEP._CACHE.clear()
+    """best-effort 'cold start' of the process-wide memos (only used to vary the call history): whatever private memo
+    the two classes keep - a dict attribute, an lru_cache'd function - is emptied; if none is found the history
+    simply starts warm.  Nothing depends on the memo's name or representation."""
+    for cls in (PolyPerms, IEP):
+        for name, val in list(vars(cls).items()):
+            if name.startswith("__"):
+                continue
+            fn = getattr(val, "__func__", val)
+            try:
+                if isinstance(val, dict):
+                    val.clear()
+                elif hasattr(fn, "cache_clear"):
+                    fn.cache_clear()
+            except Exception:  # pylint: disable=broad-except
+                pass
 
 
 def _call(op, kind, perms, mk=None):
